@@ -551,6 +551,11 @@ static int32 pkcs12import(psPool_t *pool, const unsigned char **buf,
         {
             return PS_PARSE_FAIL;
         }
+        if (asnint > PS_PBE_MAX_ITERATIONS)
+        {
+            psTraceCrypto("Unreasonable PKCS#12 iteration count\n");
+            return PS_UNSUPPORTED_FAIL;
+        }
         if (pkcs12pbe(pool, password, passLen, salt, 8, asnint,
                 PKCS12_KEY_ID, &decryptKey, &keyLen) < 0)
         {
@@ -1304,6 +1309,12 @@ int32 psPkcs12ParseMem(psPool_t *pool, psX509Cert_t **cert, psPubKey_t *privKey,
             {
                 psTraceCrypto("Iteration password integrity parse failure\n");
                 rc = PS_PARSE_FAIL;
+                goto ERR_PARSE;
+            }
+            if (asnint > PS_PBE_MAX_ITERATIONS)
+            {
+                psTraceCrypto("Unreasonable PKCS#12 MAC iteration count\n");
+                rc = PS_UNSUPPORTED_FAIL;
                 goto ERR_PARSE;
             }
         }
